@@ -11,6 +11,11 @@
 //
 // (K) the lock events recorded through the verifEvent points (kinds 200-299) of completed runs are written as
 // Coq cases; Corr/C09Run.v replays them on the model Conc/Locks.v (`accepts`).
+//
+// OPTIONS PART (opt*.go): (K) KOpt = generated opt.Options values through the real getters (opt.VerifGetters)
+// against the model Gen/Options.v; (P) the witnesses of the option relations of Props/C09O.v and legal-but-extreme
+// option points on the real DB, one process each, under a watchdog (optscen.go, optwit.go), and a documentation
+// oracle for the getters (optoracle.go).
 package main
 
 import (
@@ -126,7 +131,11 @@ func main() {
 		childMain(strings.TrimPrefix(a.Extra, "child="))
 		return
 	}
-	res := vlib.NewResult("C09", a.Out, rule)
+	if strings.HasPrefix(a.Extra, "optchild=") {
+		optChildMain(strings.TrimPrefix(a.Extra, "optchild="))
+		return
+	}
+	res := vlib.NewResult("C09", a.Out, rule+optRule)
 	defer res.Write()
 	self, err := os.Executable()
 	if err != nil {
@@ -135,6 +144,26 @@ func main() {
 	}
 
 	if a.Replay != "" {
+		if osc, ok := loadOptScenario(a.Replay); ok {
+			if osc.GetterOracle {
+				res.Eval("replay-getter-oracle", true)
+				if d := docOracle(&osc.Raw); d != "" {
+					fmt.Println("replay fails:", d)
+					res.ViolateWith("option getter disagrees with its documentation: "+d, osc, "", nil)
+				} else {
+					fmt.Println("replay passes")
+				}
+				return
+			}
+			out := runOptChild(self, a.Out, osc)
+			judgeOpt(res, osc, out)
+			if res.NViolations() > 0 {
+				fmt.Println("replay fails:", out.Class, firstLine(out.Detail))
+			} else {
+				fmt.Println("replay passes")
+			}
+			return
+		}
 		sc, err := loadScenario(a.Replay)
 		if err != nil {
 			fmt.Println("cannot load replay:", err)
@@ -172,6 +201,22 @@ func main() {
 			corpus = append(corpus, sc)
 		}
 		res.Count("corpus_scenarios", len(corpus))
+	}
+
+	// the options part (getter correspondence cases, option scenarios on the real DB) runs beside the scenarios
+	runOptCases(a, res)
+	if strings.Contains(a.Extra, "optcasesonly") {
+		return
+	}
+	var optWg sync.WaitGroup
+	optWg.Add(1)
+	go func() {
+		defer optWg.Done()
+		runOptScenarios(a, res, self)
+	}()
+	defer optWg.Wait()
+	if strings.Contains(a.Extra, "optonly") {
+		return
 	}
 
 	n := 300
